@@ -690,7 +690,7 @@ impl<'de> Visitor<'de> for DepthProbe {
 /// `match *self.schema_node` reachable for such nodes, including the decimal arm (rust_decimal) and
 /// the string arms (UTF-8 validation loops), which do not finish.  Their entry points are replaced
 /// by assertions that they are NOT entered (discharged, not assumed).
-fn verif_unreachable_read_decimal<'de, R, V>(
+pub(crate) fn verif_unreachable_read_decimal<'de, R, V>(
 	_state: &mut DeserializerState<R>,
 	_decimal_mode: DecimalMode<'_>,
 	_hint: VisitorHint,
@@ -703,7 +703,7 @@ where
 	assert!(false, "OBL frame.decimal_arm_not_entered_for_non_decimal_node");
 	Err(DeError::new("unreachable"))
 }
-fn verif_unreachable_from_utf8(_v: &[u8]) -> Result<&str, std::str::Utf8Error> {
+pub(crate) fn verif_unreachable_from_utf8(_v: &[u8]) -> Result<&str, std::str::Utf8Error> {
 	assert!(false, "OBL frame.string_arm_not_entered_for_non_string_node");
 	Ok("")
 }
